@@ -90,6 +90,15 @@ func cmdCheck(args []string) int {
 		if *only != "" && !strings.Contains(b.Flags["resolved"], *only) {
 			continue
 		}
+		for _, asp := range aspectsOf(b) {
+			afv, aerr := eng.verifyFuncAspect(b, *prop, asp)
+			if aerr != nil {
+				fmt.Fprintln(os.Stderr, "gocv:", aerr)
+				specErrors = append(specErrors, aerr.Error())
+				continue
+			}
+			fvs = append(fvs, afv)
+		}
 		fv, err := eng.verifyFunc(b, *prop)
 		if err != nil {
 			// the contract can no longer be evaluated against this code (e.g. it names a local or a
